@@ -54,6 +54,8 @@ class FnRewriter:
         self.opts = opts
         self.sections = sections
         self.edits = []  # (start, end, text, tag)
+        self.assert_ranges = []
+        self.replace_hits = {}
         self.rules = rule_counts
         self.name = item["name"]
 
@@ -180,6 +182,31 @@ class FnRewriter:
     def text_of(self, a, b):
         return self.src.text[self.toks[a].start:self.toks[b].end]
 
+    def text_replaced(self, a, b):
+        """source text of tokens a..b with the //@replace-call patterns applied (used for conditions of run-time asserts, which R4 re-renders)"""
+        toks = self.toks
+        out = []
+        pos = self.toks[a].start
+        i = a
+        pats = [([x.text for x in tokenize(ent[0])], ent[1], k) for k, ent in enumerate(self.opts.get("replace", []))]
+        while i <= b:
+            hit = None
+            for pt, rep, k in pats:
+                if i + len(pt) - 1 <= b and [x.text for x in toks[i:i + len(pt)]] == pt:
+                    hit = (pt, rep, k)
+                    break
+            if hit:
+                out.append(self.src.text[pos:toks[i].start])
+                out.append(hit[1])
+                pos = toks[i + len(hit[0]) - 1].end
+                self.replace_hits[hit[2]] = self.replace_hits.get(hit[2], 0) + 1
+                self.rule("R11")
+                i += len(hit[0])
+            else:
+                i += 1
+        out.append(self.src.text[pos:toks[b].end])
+        return "".join(out)
+
     def r4_asserts(self):
         toks = self.toks
         modes = self.opts.get("assert_modes", {})
@@ -192,12 +219,13 @@ class FnRewriter:
                 mode = modes.get(n, "static")
                 close = self.match[i + 2]
                 parts = self.split_args(i + 2)
+                self.assert_ranges.append((i, close))
                 if t.text == "assert":
-                    cond = self.text_of(*parts[0])
+                    cond = self.text_replaced(*parts[0])
                 elif t.text == "assert_eq":
-                    cond = "(%s) == (%s)" % (self.text_of(*parts[0]), self.text_of(*parts[1]))
+                    cond = "(%s) == (%s)" % (self.text_replaced(*parts[0]), self.text_replaced(*parts[1]))
                 else:
-                    cond = "(%s) != (%s)" % (self.text_of(*parts[0]), self.text_of(*parts[1]))
+                    cond = "(%s) != (%s)" % (self.text_replaced(*parts[0]), self.text_replaced(*parts[1]))
                 end = close
                 semi = ""
                 if toks[close + 1].text == ";":
@@ -485,6 +513,27 @@ class FnRewriter:
             self.edit(toks[lb].end, toks[lb].end, " let %s = &%s[%s];" % (xv, etext, iv), "R15")
             self.rule("R15")
 
+    def r15b_forentries(self):
+        """`for PAT in v {` with v a local holding a Vec (entries of a map in iteration order) -> `for vx_eN in 0..v.len() { let PAT = v[vx_eN];`"""
+        want = self.opts.get("forentries", set())
+        if not want:
+            return
+        toks = self.toks
+        loops = self.loops()
+        for n in want:
+            if n > len(loops):
+                raise ExtractError("lost anchor: loop #%d in %s" % (n, self.name))
+            kw, lb = loops[n - 1]
+            hdr = toks[kw + 1:lb]
+            texts = [t.text for t in hdr]
+            if not (toks[kw].text == "for" and len(texts) >= 3 and texts[-2] == "in" and hdr[-1].kind == "id"):
+                raise ExtractError("lost anchor: loop #%d of %s is not `for PAT in <local>`" % (n, self.name))
+            vec = texts[-1]
+            pat = self.text_of(kw + 1, lb - 3)
+            self.edit(toks[kw + 1].start, toks[lb - 1].end, "vx_e%d in 0..%s.len()" % (n, vec), "R15")
+            self.edit(toks[lb].end, toks[lb].end, " let %s = %s[vx_e%d];" % (pat, vec, n), "R15")
+            self.rule("R15")
+
     def r8_signature(self):
         toks = self.toks
         it = self.item
@@ -573,13 +622,15 @@ class FnRewriter:
                 self.rule("R9")
 
     def replace_calls(self):
-        for ent in self.opts.get("replace", []):
+        for k, ent in enumerate(self.opts.get("replace", [])):
             pat, rep = ent[0], ent[1]
             optional = len(ent) > 2 and ent[2]
             pt = [x.text for x in tokenize(pat)]
             bo, bc = self.body_range()
-            hit = 0
+            hit = self.replace_hits.get(k, 0)          # occurrences inside run-time asserts were rendered by R4
             for i in range(bo + 1, bc):
+                if any(a <= i <= c for (a, c) in self.assert_ranges):
+                    continue
                 seg = [x.text for x in self.toks[i:i + len(pt)]]
                 if seg == pt:
                     hit += 1
@@ -707,6 +758,7 @@ class FnRewriter:
         self.r13_mapcollect()
         self.r13b_itermapcollect()
         self.r15_enumerate()
+        self.r15b_forentries()
         self.subst()
         self.replace_calls()
         self.r11_anyhow()
@@ -1087,6 +1139,9 @@ class Assembler:
                             cur = None
                         elif c2 == "enumerate":
                             opts["enumerate"].add(int(p2[1]))
+                            cur = None
+                        elif c2 == "forentries":
+                            opts.setdefault("forentries", set()).add(int(p2[1]))
                             cur = None
                         elif c2 == "tailbind":
                             opts["tailbind"] = p2[1]
